@@ -137,6 +137,9 @@ class RandomUtils():
 
     def remove_reserved_words(self, language):
         reserved_words = get_reserved_words(self.resource_path, language)
+        # Class names are capitalized words, so a word must also be excluded
+        # when only its capitalized form is reserved (e.g., 'set' -> 'Set').
+        reserved_words = reserved_words | {w.lower() for w in reserved_words}
         self.INITIAL_WORDS = self.INITIAL_WORDS - reserved_words
         self.WORDS = self.WORDS - reserved_words
 
